@@ -58,7 +58,7 @@ func (l *lru) touch(k string) {
 // proportion to it.  (Capacities between 2^21 and 2^30 are left out on
 // purpose: an implementation that allocates by capacity would take gigabytes
 // per worker there instead of failing at once.)
-var c20BigCaps = []int{100, 1000, 4096, 1 << 16, 1 << 20, 1<<31 - 1, 1 << 31, 1<<32 - 1, 1 << 32, 1 << 40, 1<<62 + 1, 1<<63 - 1}
+var c20BigCaps = intsThatFit(100, 1000, 4096, 1<<16, 1<<20, 1<<31-1, 1<<31, 1<<32-1, 1<<32, 1<<40, 1<<62+1, 1<<63-1)
 
 func c20One(c *run.C) { c20Run(c, c20Caps[c.Idx%len(c20Caps)]) }
 
